@@ -32,7 +32,8 @@ PROBES = ["pel_over_2KiB", "perm_not_sorted", "reverse", "ext_filter", "hex", "s
 def gen_plan(rng, tier, run):
     n = rng.choice([0, 1, 2, 3, 4, 5, 6, 8, 12])
     ext = rng.choice([None, None, [".pel"], [".pel", ".txt", ""], [".pel", ".PEL", ".pel.bak"]])
-    files = common.gen_store(rng, n, ext=ext, max_sections=4, ud_targets=[("O", 0x2000)] if rng.random() < 0.4 else None)
+    files = common.gen_store(rng, n, ext=ext, max_sections=4, ud_targets=[("O", 0x2000)] if rng.random() < 0.4 else None,
+                             links=rng.choice([0, 0, 0, 0.3]))
     # some PELs well above 2 KiB: no primary SRC and large sections, or an SRC with the maximum of 10 callouts
     for f in files:
         c = rng.random()
@@ -86,9 +87,7 @@ def execute(plan):
     with World(registry=plan["registry"]) as w:
         w.fresh_per_run = bool(plan.get("fresh"))
         bump("process_model:fresh" if w.fresh_per_run else "process_model:shared")
-        w.mkdir("D")
-        for f in files:
-            w.put("D/" + f["name"], datas[f["name"]])
+        common.put_store(w, "D", [dict(f, data=datas[f["name"]]) for f in files])
         before = w.snapshot()
         def prelude(pos):
             # other invocations of the same process, before / between the compared ones
